@@ -153,8 +153,8 @@ func specInterrupts() bool {
 // ---------------------------------------------------------------- C01 gating / C12 termination
 
 //@ func (Level).Enabled
-//@   props C01
-//@   ensures [C01.spec] result == specAdmits(level, testingLevel)
+//@   props C01 C17
+//@   ensures [C01.C17.spec] result == specAdmits(level, testingLevel)
 
 //@ func (*Entry).Level
 //@   props C01
@@ -271,7 +271,9 @@ func specInterrupts() bool {
 //@   ensures [C14.fields] contentid(s.Function) == ghost.cfFn && s.Line == ghost.cfLine
 
 //@ func (*Entry).collectArgs
-//@   props C02 C07
+//@   props C02 C07 C09
+//@   ensures [C09.own-array] grown(*kvps, old(*kvps))
+//@   keeps gkvp.key, kvp.key, kvp.val
 //@   auto
 //@   requires !isnil(ctx)
 //@   requires [C07.in] kvps != nil
@@ -288,7 +290,9 @@ func specInterrupts() bool {
 //@   ensures [C07.inherit-bare] implies((flags&LattrsR != 0) && s.owner != nil, len(*kvps) >= old(len(*kvps)) + len(s.attrs) + len(s.owner.attrs))
 
 //@ func (*Entry).walkParentAttrs
-//@   props C02 C07
+//@   props C02 C07 C09
+//@   ensures [C09.own-array] grown(*kvps, old(*kvps))
+//@   keeps gkvp.key, kvp.key, kvp.val
 //@   auto
 //@   keeps ghost.ioSeq
 //@   requires [C07.in] kvps != nil
@@ -299,14 +303,15 @@ func specInterrupts() bool {
 //@   at call (*Entry).walkParentAttrs assert [C07.outermost-first] (flags&LattrsR != 0) && callee.e == e.owner && callee.kvps == kvps && len(*kvps) == old(len(*kvps))
 
 //@ func argsToAttrs
-//@   props C02 C07 C15
+//@   props C02 C07 C15 C09
+//@   ensures [C09.own-array] grown(*kvps, old(*kvps))
 //@   auto
 //@   keeps ghost.ioSeq
 //@   ensures [C07.append] len(*kvps) >= old(len(*kvps)) && forall(j, 0, old(len(*kvps)), (*kvps)[j] == old((*kvps)[j]))
 //@   ensures [C07.noargs] implies(len(args) == 0, len(*kvps) == old(len(*kvps)))
-//@   loop 1 invariant len(*kvps) >= old(len(*kvps)) && forall(j, 0, old(len(*kvps)), (*kvps)[j] == old((*kvps)[j]))
+//@   loop 1 invariant grown(*kvps, old(*kvps)) && len(*kvps) >= old(len(*kvps)) && forall(j, 0, old(len(*kvps)), (*kvps)[j] == old((*kvps)[j]))
 //@   loop 1 invariant implies(rangeindex == -1, len(*kvps) == old(len(*kvps)))
-//@   loop 2 invariant len(*kvps) >= old(len(*kvps)) && forall(j, 0, old(len(*kvps)), (*kvps)[j] == old((*kvps)[j]))
+//@   loop 2 invariant grown(*kvps, old(*kvps)) && len(*kvps) >= old(len(*kvps)) && forall(j, 0, old(len(*kvps)), (*kvps)[j] == old((*kvps)[j]))
 //@   keeps gkvp.key, kvp.key, kvp.val
 
 //@ func (*Entry).logContext
@@ -2487,7 +2492,9 @@ func specTellable(m LogWriter) bool {
 //@   ensures [C05.C09.prefix] same(pc.prefix, old(pc.prefix)) && !pc.inGroupedMode
 
 //@ func (*Entry).fromCtx
-//@   props C02 C07
+//@   props C02 C07 C09
+//@   ensures [C09.own-array] grown(*kvps, old(*kvps))
+//@   keeps gkvp.key, kvp.key, kvp.val
 //@   auto
 //@   requires !isnil(ctx)
 //@   keeps ghost.ioSeq
@@ -2495,7 +2502,7 @@ func specTellable(m LogWriter) bool {
 //@   ensures [C07.append] len(*kvps) >= old(len(*kvps)) && forall(j, 0, old(len(*kvps)), (*kvps)[j] == old((*kvps)[j]))
 //@   ensures [C07.nokeys] implies(len(s.contextKeys) == 0, len(*kvps) == old(len(*kvps)))
 //@   at call (context.Context).Value assert [C07.ctx-key] callee.self == ctx && callee.key == k
-//@   loop 1 invariant len(*kvps) >= old(len(*kvps)) && forall(j, 0, old(len(*kvps)), (*kvps)[j] == old((*kvps)[j]))
+//@   loop 1 invariant grown(*kvps, old(*kvps)) && len(*kvps) >= old(len(*kvps)) && forall(j, 0, old(len(*kvps)), (*kvps)[j] == old((*kvps)[j]))
 //@   loop 1 invariant implies(rangeindex == -1, len(*kvps) == old(len(*kvps)))
 
 
